@@ -24,7 +24,7 @@ func C20_dial_cancellation() {
 	}
 	silent := vBool("silentpeer")
 	cancelAt := vInt("cancelat") // cancel right before connection operation #cancelAt (-1: never)
-	vAssume(vAnd(cancelAt >= -1, cancelAt <= 5))
+	vAssume(vAnd(cancelAt >= -2, cancelAt <= 5)) // -2: already cancelled before connecting
 	if ctxKind != 1 {
 		vAssume(cancelAt == -1)
 	}
@@ -33,7 +33,7 @@ func C20_dial_cancellation() {
 	// cancellation tied to a later operation never fires)
 	// — #1 never *completes*, so a cancellation at its end does not fire either)
 	late := vBool("cancellate")
-	bounded := timeout > 0 || ctxKind >= 2 || cancelAt == 0 || (cancelAt == 1 && !late)
+	bounded := timeout > 0 || ctxKind >= 2 || cancelAt == -2 || cancelAt == 0 || (cancelAt == 1 && !late)
 	if silent && !bounded {
 		vAssume(false)
 	}
@@ -54,7 +54,18 @@ func C20_dial_cancellation() {
 	}
 	conn := &vDConn{cancelAt: cancelAt, cancelLate: late, ctx: root, silent: silent}
 	vTheConn = conn
-	d := Dialer{Timeout: time.Duration(timeout * vMs), NetDial: func(ctx context.Context, network, addr string) (net.Conn, error) { return conn, nil }}
+	if cancelAt == -2 && root != nil {
+		root.cancel(context.Canceled)
+	}
+	dialed := false
+	d := Dialer{Timeout: time.Duration(timeout * vMs), NetDial: func(dctx context.Context, network, addr string) (net.Conn, error) {
+		// like net.Dialer: an already-ended context fails the dial
+		if err := dctx.Err(); err != nil {
+			return nil, err
+		}
+		dialed = true
+		return conn, nil
+	}}
 	var err error
 	var got net.Conn
 	vCallBounded("dial.returns_once_context_or_timeout_ends", func() {
@@ -80,6 +91,13 @@ func C20_dial_cancellation() {
 	conn.mu.Lock()
 	dl, closed, opsAfter := conn.dl, conn.closed, conn.opsAfter
 	conn.mu.Unlock()
+	if !dialed {
+		// dial-phase cancellation: the context's error, no connection, nothing touched
+		vAssert(vAnd(err != nil, got == nil), "dial.cancelled_before_connecting_fails")
+		vAssert(vAnd(root != nil, err == context.Canceled), "dial.cancelled_before_connecting_reports_context_error")
+		vAssert(conn.ops == 0, "dial.cancelled_before_connecting_touches_nothing")
+		return
+	}
 	if err == nil {
 		// (a) success: deadlines left cleared, conn never touched again
 		vAssert(got == net.Conn(conn), "dial.success_returns_conn")
